@@ -621,3 +621,109 @@ def replay(ctx, payload):
         snake_refs(ctx, int(inp['len']), int(inp['prefill']), int(inp['refs']))
     elif 'len' in inp and 'prefill' in inp:
         snake(ctx, int(inp['len']), int(inp['prefill']))
+
+
+# ----------------------------------------------------------------------------- appended by strengthener st-nfif (round 10)
+# Class "every legal NON-CANONICAL encoding of the same value": VarUInteger / VarInteger / Grams carry an explicit `len` field
+# (var_uint$_ len:(#< n) value:(uint (len * 8))); every len with value < 2^(8 len) (signed: value fits len bytes of two's complement)
+# is a valid encoding.  No store_* writes a non-minimal one, so these cells are hand-built (harness/gen/noncanon.py), preceded by a
+# prefix and followed by a tail and references: preload_X and load_X must return the value, load_X must consume exactly the
+# len field + len bytes (the tail is then read back intact, nothing is left, the references are untouched).  Model and
+# library are compared on the same scripts.
+from ..gen import noncanon as NC
+
+
+def noncanon_case(ctx, kind, k, ln, v, pre, tail, tag='noncanon'):
+    """kind: 'vu' / 'vi' / 'c' (coins: k = 4)"""
+    body = NC.enc_var_int(k, ln, v) if kind == 'vi' else NC.enc_var_uint(k, ln, v)
+    bits = pre + body + tail
+    if len(bits) > 1023:
+        return
+    dag = LEAF_DAG + [(G.ORD, bits, (0, 2))]
+    cell = G.lib_build(dag)[-1]
+    peek, load = {'vu': (f'pvu:{k}', f'lvu:{k}'), 'vi': (f'pvi:{k}', f'lvi:{k}'), 'c': ('pc', 'lc')}[kind]
+    ops = ([f'lb:{len(pre)}'] if pre else []) + [peek, load] + ([f'lb:{len(tail)}'] if tail else [])
+    want = ([pre] if pre else []) + [str(v), str(v)] + ([tail] if tail else [])
+    inp = {'noncanon': kind, 'lenbits': k, 'len': ln, 'value': str(v), 'pre': pre, 'tail': tail}
+    ctx.case((tag, kind, k, ln, v, pre, tail), sample={'ops': ops, 'len': ln, 'value': str(v)})
+    ctx.count('noncanon-load:' + kind)
+    minimal = (v.bit_length() + 7) // 8 if kind != 'vi' else next(n for n in range(0, ln + 1) if (n == 0 and v == 0) or (n and -(1 << (8 * n - 1)) <= v < (1 << (8 * n - 1))))
+    ctx.count('noncanon-load-extra-bytes:%s' % min(ln - minimal, 3))
+    res, rb, rr = S.exec_slice(cell, ops)
+    got = res.split(';')
+    for i, (g, w) in enumerate(zip(got, want)):
+        if g != w:
+            what = ('the tail behind the field is not read back intact: the load did not consume exactly len field + len bytes' if ops[i].startswith('lb:') and i > 0 and i == len(ops) - 1
+                    else f'{ops[i]} returned another value than the one encoded with len = {ln}')
+            ctx.fail(f'{"peek" if ops[i][0] == "p" else "load"}:{ops[i].split(":")[0]}', what, inp, g, w)
+            return
+    if rb != '-' or len(cell.refs) != 2 or rr != '.'.join(c.hash.hex() for c in cell.refs):
+        ctx.fail('leftover', f'bits left / references touched after {load} of an encoding with len = {ln} and reading the tail', inp, [rb, rr], ['-', 'both references'])
+        return
+    ctx.expect_model(sline(dag, len(dag) - 1, ops), f'ok {res} {rb} {rr}', tag)
+
+
+def noncanon_loads(ctx):
+    rng = ctx.rng
+    for k in (2, 3, 4, 5):
+        top = (1 << k) - 1
+        for m in range(0, top + 1):                    # minimal byte length class of the value
+            us, ss = S.varint_values(m)
+            lens = sorted({m, m + 1, m + 2, top, rng.randrange(m, top + 1)})
+            for ln in lens:
+                if ln > top or k + 8 * ln > 1000:
+                    continue
+                pre = rng.choice(['', '1', '0', G.rand_bits(rng, rng.randrange(1, 12))])
+                tail = rng.choice(['1', '0', '10', G.rand_bits(rng, rng.randrange(1, 12)) + '1', '1' + '0' * 8, ''])
+                for v in {us[0], us[-1], rng.choice(us)}:
+                    noncanon_case(ctx, 'vu', k, ln, v, pre, tail)
+                    if k == 4:
+                        noncanon_case(ctx, 'c', 4, ln, v, pre, tail)
+                for v in {ss[0], ss[1] if len(ss) > 1 else ss[0], rng.choice(ss)}:
+                    noncanon_case(ctx, 'vi', k, ln, v, pre, tail)
+    # zero written with every len; small values with every len (VarUInteger 16 / 32)
+    for k in (4, 5):
+        for ln in range(0, (1 << k)):
+            if k + 8 * ln > 1000:
+                continue
+            for v in (0, 1, 255):
+                if ln or v == 0:
+                    noncanon_case(ctx, 'vu', k, ln, v, '', '11')
+                    noncanon_case(ctx, 'vi', k, ln, -v if v != 255 else 127, '1', '01')
+            if k == 4:
+                noncanon_case(ctx, 'c', 4, ln, 0, '0', '1')
+
+
+_run_before_noncanon = run
+_replay_before_noncanon = replay
+
+
+def run(ctx):
+    if ctx.search:
+        state = ctx.rng.getstate()      # the search streams that follow keep their own draws
+        noncanon_loads(ctx)
+        ctx.rng.setstate(state)
+        if ctx.failures:
+            return
+        _run_before_noncanon(ctx)
+        return
+    _run_before_noncanon(ctx)
+    noncanon_loads(ctx)
+
+
+def replay(ctx, payload):
+    inp = payload.get('input') or {}
+    if isinstance(inp, dict) and 'noncanon' in inp:
+        noncanon_case(ctx, inp['noncanon'], int(inp['lenbits']), int(inp['len']), int(inp['value']), inp.get('pre', ''), inp.get('tail', ''), 'replay')
+        return
+    _replay_before_noncanon(ctx, payload)
+
+# theorems about every legal (also non-minimal) VarUInteger / VarInteger / Grams encoding: Properties/C06NonCanon.lean
+SPEC['property_modules'] = list(SPEC.get('property_modules', [])) + ['C06NonCanon']
+SPEC['manifest']['text'] += (' NON-CANONICAL LENGTHS: Properties/C06NonCanon.lean proves that load_var_uint / load_coins / load_var_int - the hand model '
+                             'and the methods regenerated from slice.py - return the value and leave exactly the continuation on EVERY legal encoding, i.e. for any '
+                             'len field with value < 2^(8 len) (signed: representable in len bytes), not only the minimal one the stores write '
+                             '(c06_var_uint_any_len, c06_coins_any_len, c06_var_int_any_len, c06_src_var_any_len); hand-built non-minimal encodings between a prefix '
+                             'and a tail are loaded on the library and on the model every run (value, tail intact, nothing left, references untouched).')
+SPEC['rule'] += ('; non-canonical var-ints: length prefix 2..5 bits x minimal byte class x len in {min, +1, +2, max, random}, boundary values, both signs, coins, '
+                 'zero with every len, hand-built between a prefix and a tail')
